@@ -76,8 +76,8 @@ CLAIMS = {
    text="Lean theorems for every byte string (both build modes): every byte string of public-key length deserialises and serialising the resulting struct returns the same bytes (public_key_bytes_round_trip); every private-key byte string that "
         "deserialisation accepts is returned byte for byte by serialising the resulting struct (private_key_bytes_round_trip). Both go through the NTT-domain representation held in the structs: the butterflies are congruent mod q to exact "
         "integer specifications inside the overflow envelopes, the inverse specification undoes the forward one (255 table pairs by kernel evaluation), Montgomery factors cancel, the canonical representative equals the small original "
-        "coefficient, and the byte codecs are mutually inverse (C08). Also proved: field provenance (rho / K / tr are the input slices, pk.tr = H(input)). Not proved: the third sentence of the property (a generated key that is serialised "
-        "and deserialised is the same struct, hence behaves identically) - decided on every run by struct-level equality of generated versus round-tripped keys on random and extremal keys, in both build profiles.",
+        "coefficient, and the byte codecs are mutually inverse (C08). And the third sentence: for every seed, both generated keys serialise and deserialising those bytes returns the same structs, field by field (generated_keys_round_trip_to_the_same_structs), so the "
+        "round-tripped keys sign and verify identically. Also proved: field provenance. On every run struct-level equality of generated versus round-tripped keys and byte round trips are cross-checked against the crate, in both build profiles.",
    note=TB + "struct equality is literal equality of every i32 of every field.",
    tech="Lean 4 proof of both byte round trips through the NTT (congruence to exact specs, inverse-undoes-forward, codec bijection) + struct-exact differential round trips of generated keys"),
  'C10': dict(cat='proof', ref='DESIGN 5 C10',
@@ -96,7 +96,7 @@ CLAIMS = {
    text="Proof for the whole verification path + partial proof elsewhere + hostile-input execution. Proved in Lean for all inputs and both build modes: expand_public followed by verify / hash_verify / _internal_verify never panics on ANY "
         "public-key bytes and ANY signature bytes (verification_path_never_panics: sig_decode's accumulator and hint index discipline, sample_in_ball's Hamming-weight assertions, rej_ntt_poly, the lazy NTT pipeline, use_hint within w1_encode's "
         "asserted range, simple_bit_pack filling its slice); the three signing entry points never panic on any private key deserialisation accepted, for every message / context / pre-hash / RNG behaviour, within the first fuel attempts with fuel*l <= 65535 (signing_never_panics: expand_mask, commitment pipeline, high_bits/w1_encode, c*s1/c*s2/c*t0 through mont_reduce and inv_ntt, partial_reduce32/low_bits/make_hint inside their domains, every assertion of sig_encode and hint_bit_pack implied by the acceptance tests); private-key deserialisation never faults; scalar kernels on their domains; the inverse NTT on every vector that fits partial_reduce32; all six entry points on over-long contexts; "
-        "keygen and both signers on every failing generator; range self-checks cannot fire on accepted keys; derivation ignores t0. The three pinned-tree panics (F1, F2, F3) are refuted on frozen definitions / removed. key generation (seeded, and RNG-driven for every generator behaviour) and public-key derivation from any accepted private key never panic and return well-formed keys. Not proved: into_bytes of either key (its range self-checks need the NTT inversion identity mod q); that runs on every check in the checked build on random and constructed hostile inputs (random pk/sk/sig, accepted-but-dishonest keys, edited t0, forgeries).",
+        "keygen and both signers on every failing generator; range self-checks cannot fire on accepted keys; derivation ignores t0. The three pinned-tree panics (F1, F2, F3) are refuted on frozen definitions / removed. key generation (seeded, and RNG-driven for every generator behaviour) and public-key derivation from any accepted private key never panic and return well-formed keys. into_bytes of a key obtained from any (accepted) byte string or from key generation never panics (serialisation_never_panics, through the NTT inversion identity mod q). Every public entry point named in the property is covered by a theorem; hostile-input execution runs on every check in the checked build on random and constructed hostile inputs (random pk/sk/sig, accepted-but-dishonest keys, edited t0, forgeries).",
    note=TB + "the verification theorem assumes of the hash oracles only that they return as many bytes as requested; the model's samplers read a finite XOF prefix, so its extra outcome Fault.fuel is allowed by the theorem and is not a crate behaviour. residual: more than 65535/l consecutive rejections would overflow the u16 attempt counter (probability below 2^-256).",
    tech="Lean 4 no-fault theorems in checked mode + panic-oracle execution of the checked build on hostile inputs"),
  'C18': dict(cat='proof', ref='DESIGN 5 C18, 3.2',
